@@ -30,6 +30,13 @@ proof against a reference map needs:
            counter lowered only for a parameter tested to be flagged and un-flagged / removed; position rewritten
            or invalidated after every erase / insert-before-end / compaction); any other influence of such a
            member on results is undecided.
+  R-C10-6  a key / name taken by reference may designate a key stored in the container itself (erase(m.begin()->first),
+           removeParam(p->name)): it is not read again after the sequence has moved or destroyed elements, and it is not
+           captured by reference in the predicate of an element-moving algorithm unless the key type is trivially
+           copyable (then a move is a copy and, keys being unique, the comparisons stay right).
+Lookup predicates: `a.compare(b) == 0` is `a == b`; a strncmp over the length of one operand is a prefix comparison
+(recognised wrong); predicates built from other calls are undecided.  setParam leaves the query flag of the parameter
+it writes alone.
 Calls to helpers are followed (members of the analysed classes, free / file-local functions; a [[noreturn]] helper
 that throws ends the path with that throw); a helper whose own summary is a linear search - cursor from first to
 last, end test before element test, returns at the first element whose key equals the argument, else last, no other
@@ -152,6 +159,11 @@ class Seq:
         if not (isinstance(p, tuple) and p[0] == 'pred' and isinstance(p[1], tuple) and p[1][0] == 'eq'):
             return None
         a, b = p[1][1], p[1][2]
+        # x.compare(y) == 0  is  x == y
+        for x, y in ((a, b), (b, a)):
+            if y == ('const', 0) and isinstance(x, tuple) and x[0] == 'call' and x[1] == 'std::basic_string::compare' and len(x) == 4:
+                a, b = x[2], x[3]
+                break
         la, lb = contains(a, ('lparam', 0)), contains(b, ('lparam', 0))
         if la and not lb:
             return a, b
@@ -271,6 +283,36 @@ def is_elem_field_store(seq, x):
         return False
     lhs = ev.nf if ev.kind == 'store' else ev.place
     return isinstance(lhs, tuple) and lhs[:1] == ('field',) and len(lhs) == 3 and seq.is_elem(lhs[1])
+
+
+def lookup_mismatch(kx, K, keyexpr0, Kexp):
+    """how a lookup predicate `kx(elem) == K` differs from `key member == argument`: ('viol' | 'und', kind, text) or None.
+    Recognised wrong: another member of the element is compared, the key is compared with something other than the argument, or
+    only a prefix is compared (strncmp over the length of one operand).  A predicate built from other calls is undecided."""
+    if kx == keyexpr0 and unver(K) == Kexp:
+        return None
+    def plain(x):
+        return not find_all(x, lambda t: t[0] in ('call', 'opaque', 'var', 'cond', 'cast'))
+    if isinstance(kx, tuple) and kx[0] == 'call' and kx[1] in ('strncmp', 'std::strncmp') and len(kx) == 6 and unver(K) == ('const', 0):
+        n = kx[5]
+        ops = [x[2] for x in kx[3:5] if isinstance(x, tuple) and x[0] == 'call' and last(x[1]) in ('c_str', 'data') and len(x) == 3]
+        sizes = [('call', 'std::basic_string::size', o) for o in ops] + [('call', 'std::basic_string::length', o) for o in ops]
+        if len(ops) == 2 and n in sizes:
+            return ('viol', 'lookup-prefix-comparison',
+                    'the lookup predicate `%s == 0` compares only the first `%s` characters: a stored name that merely starts with the requested '
+                    'one is taken for it (and the other way round)' % (show(kx), show(n)))
+        return ('und', 'lookup-other-key', 'the lookup predicate `%s == 0` is not recognised' % show(kx))
+    if plain(kx) and plain(unver(K)):
+        if kx != keyexpr0:
+            return ('viol', 'lookup-not-on-key', 'the lookup compares `%s` instead of the key member `%s`' % (show(kx), show(keyexpr0)))
+        return ('viol', 'lookup-other-key', 'the lookup searches for `%s` instead of the argument `%s`' % (show(K), show(Kexp)))
+    return ('und', 'lookup-other-key', 'the lookup predicate `%s == %s` is not recognised as `key member == argument`' % (show(kx), show(K)))
+
+
+def report_mismatch(mm, probs, und):
+    if mm is None:
+        return
+    (probs if mm[0] == 'viol' else und).append((mm[1], mm[2]))
 
 
 def check_sequence_rules(ctx, tu, se, seq, fns, file_of, tag, counts):
@@ -536,10 +578,7 @@ def check_flatmap(ctx, tu, tag=''):
             probs, und = [], []
 
             def want_lookup(L, K, kx):
-                if unver(K) != p0:
-                    probs.append(('lookup-other-key', 'the lookup searches for `%s` instead of the argument `%s`' % (show(K), show(p0))))
-                if kx != keyexpr0:
-                    probs.append(('lookup-not-on-key', 'the lookup compares `%s` instead of the key member `.first`' % show(kx)))
+                report_mismatch(lookup_mismatch(kx, K, keyexpr0, p0), probs, und)
 
             def no_effects(p, what):
                 evs = [x for x in seq.seq_events(p, bool(f.get('const'))) if not (x[0] == 'algo' and x[1] in ALGO_READ)]
@@ -866,8 +905,7 @@ def check_paramobj(ctx, tu, tag=''):
                                 % (bool(flag), show(rvu) if rvu is not None else p.term[0])))
                 continue
             failed, L, kx, Kx, _ = lc
-            if unver(Kx) != K or kx != keyexpr0:
-                probs.append(('lookup-other-key', 'findParam looks up `%s == %s` instead of the name argument in the name member' % (show(kx), show(Kx))))
+            report_mismatch(lookup_mismatch(kx, Kx, keyexpr0, K), probs, und)
             if not failed:
                 if evs:
                     probs.append(('found-mutates', 'findParam modifies the list although the name was found: `%s`' % tu.show(evs[0][2].node)))
@@ -1049,7 +1087,26 @@ def check_paramobj(ctx, tu, tag=''):
                 if place != ('field', target, DATA):
                     probs.append(('store-other-param', 'the value is stored into `%s` instead of the `%s` of the parameter found-or-added under the name' % (show(place), DATA)))
                 if val != p1:
-                    probs.append(('store-other-value', 'the stored value is `%s` instead of the argument' % show(val)))
+                    (und if val is None or has_unknown(val) or find_all(val, lambda t: t[0] == 'field' and t[1] != THIS) else probs).append(
+                        ('store-other-value', 'the stored value is `%s` instead of the argument' % (show(val) if val is not None else '?')))
+                # writing a value must leave the rest of an existing parameter alone: its query status lasts until the reset
+                for ev in p.events:
+                    lhs = None
+                    if ev.kind == 'store' and isinstance(ev.nf, tuple) and ev.nf[:1] == ('field',) and len(ev.nf) == 3:
+                        lhs = ev.nf
+                    elif ev.kind == 'call' and last(ev.how or '') == 'operator=' and isinstance(ev.place, tuple) and ev.place[:1] == ('field',) \
+                            and len(ev.place) == 3:
+                        lhs = ev.place
+                    if lhs is not None and lhs[1] == target and lhs[2] == QUERY:
+                        probs.append(('resets-query-flag',
+                                      'setParam writes `%s` of the parameter it found (`%s`): overwriting an existing parameter changes its query '
+                                      'status - a parameter that was read is no longer "queried" although resetAllParamQueryStatus was not called'
+                                      % (QUERY, tu.show(ev.node))))
+                    if ev.kind == 'call' and base_name(ev.how or '') == PARAM + '::operator=' and ev.place == target and not ev.inlined:
+                        probs.append(('resets-query-flag',
+                                      'setParam assigns a whole Param to the parameter it found (`%s`): every member is overwritten, including `%s` - a '
+                                      'parameter that was read is no longer "queried" although resetAllParamQueryStatus was not called'
+                                      % (tu.show(ev.node), QUERY)))
         elif name == 'removeParam':
             n5 += 1
             for p in paths:
@@ -1082,8 +1139,7 @@ def check_paramobj(ctx, tu, tag=''):
                         und.append(('shape', 'removeParam has a path without lookup'))
                     continue
                 failed, L, kx, Kx, _ = lc
-                if unver(Kx) != p0 or kx != keyexpr0:
-                    probs.append(('lookup-other-key', 'removeParam looks up `%s == %s`' % (show(kx), show(Kx))))
+                report_mismatch(lookup_mismatch(kx, Kx, keyexpr0, p0), probs, und)
                 if failed:
                     if evs:
                         probs.append(('erase-when-missing', 'removeParam modifies the list (`%s`) although the name was not found' % tu.show(evs[0][2].node)))
@@ -1426,6 +1482,131 @@ def check_aux_state(ctx, tu, se, seq, fns, r, finder, aux_names, info, names, ta
 
 
 # ============================================================================================
+#  R-C10-6 : a by-reference key argument may name a key stored in the container itself
+# ============================================================================================
+MOVING_CALLS = {'erase', 'insert', 'emplace', 'push_back', 'emplace_back', 'resize', 'clear', 'assign', 'pop_back', 'operator=', 'swap',
+                'shrink_to_fit', 'reserve'}
+DESTROYING_CALLS = {'erase', 'resize', 'clear', 'assign', 'pop_back', 'operator='}
+
+
+def check_key_alias(ctx, tu, tag=''):
+    """erase(fm.begin()->first), removeParam(p->name): the key argument is a reference and may designate a key stored in the very
+    sequence the member is about to change.  Recognised wrong:
+      (A) the parameter is read again after a call on the sequence that moves or destroys elements (vector::erase slides the
+          successors down, so the reference now denotes a different key; for the list of shared_ptr<Param>, destroying an entry can
+          destroy the Param that holds the name);
+      (B) the parameter is captured by reference in the predicate of an algorithm that moves the elements while it runs
+          (stable_partition / remove_if / partition ...): the predicate compares against a moved-from or overwritten key.  For a
+          trivially copyable key type a move is a copy and, keys being unique, the comparisons stay right - accepted.
+    Correct forms read the parameter only before the first such call (single-element erase after the search), or work on a copy."""
+    R6 = 'R-C10-6'
+    ctx.describe(R6, 'a by-reference key parameter (it may name a key stored in the container itself) is not read after the sequence has moved / '
+                     'destroyed elements, and is not captured by reference in the predicate of an element-moving algorithm unless the key type '
+                     'is trivially copyable')
+    n = 0
+    targets = []
+    for r in tu.records.values():
+        if r.get('lambda'):
+            continue
+        if r.get('tmpl') == FM and r.get('targs'):
+            vf = [f for f in r['fields'] if f['ct'].startswith('std::vector<std::pair<')]
+            if len(vf) == 1:
+                kt = r['targs'][0]
+                targets.append((r, vf[0]['id'], ('const %s &' % kt.get('t'),), MOVING_CALLS, bool(kt.get('trivially_copyable')), kt.get('t')))
+        elif r['q'] == PO:
+            vf = [f for f in r['fields'] if f['ct'].startswith('std::vector<std::shared_ptr<')]
+            if len(vf) == 1:
+                targets.append((r, vf[0]['id'], ('const std::basic_string<char> &', 'const std::string &'), DESTROYING_CALLS, False, 'std::string'))
+    for r, sid, ptypes, moving, trivial, ktname in sorted(targets, key=lambda t: t[0]['type']):
+        fns = [f for f in tu.functions.values() if f.get('recid') == r['id'] and not f['dep'] and tu.cfg(f) is not None
+               and not f.get('implicit') and not f.get('ctor') and not f.get('dtor')]
+        for f in sorted(fns, key=lambda f: (f['l'], f['fty'])):
+            refs = {p['id']: p['name'] for p in f.get('params', []) if p['ct'] in ptypes}
+            if not refs:
+                continue
+            g = tu.cfg(f)
+            inst = inst_name(f) + tag
+            pname = pattern_name(tu, f)
+            file = tu.fn_file(f)
+            n += 1
+            found = []
+
+            def on_seq(x):
+                sd, obj, args = tu.call_parts(x)
+                o = tu.strip(obj, casts=True) if obj is not None else None
+                return o is not None and o.get('kind') == 'MemberExpr' and tu.sd(o).get('d') == sid
+
+            def transfer(blk, i, el, st):
+                if el[0] != 'S':
+                    return [st]
+                x = tu.node(el[1])
+                if x is None:
+                    return [st]
+                k = x.get('kind')
+                if k in ('CXXMemberCallExpr', 'CXXOperatorCallExpr') and on_seq(x):
+                    sd = tu.sd(x)
+                    if last(strip_targs(sd.get('q', ''))) in moving and not re.search(r'\)\s*const\b', sd.get('fty', '')):
+                        return [x['id']]
+                if k == 'DeclRefExpr' and st is not None and x.get('referencedDecl', {}).get('id') in refs:
+                    found.append((x, st))
+                return [st]
+
+            g.explore([None], transfer)
+            bad = False
+            if found:
+                x, callid = found[0]
+                call = tu.node(callid)
+                nm = refs[x['referencedDecl']['id']]
+                ctx.violation(R6, inst, 'the reference parameter `%s` is read at %s after `%s` at %s has moved / destroyed elements of the sequence. `%s` may '
+                              'name a key stored in this very container (erase(m.begin()->first)): after the call it denotes whatever element slid into '
+                              'that place (or a destroyed object), so the comparison is no longer with the key the caller passed'
+                              % (nm, tu.loc(x), tu.show(call), tu.loc(call), nm), tu.loc(x),
+                              key='%s|%s|%s|key-read-after-move' % (R6, file, pname),
+                              path=[inst, 'elements moved at %s: %s' % (tu.loc(call), tu.show(call)), 'parameter read again at %s' % tu.loc(x)])
+                bad = True
+            # (B) predicates of element-moving algorithms
+            for b, i, x in g.stmts():
+                if x.get('kind') != 'CallExpr':
+                    continue
+                q = strip_targs(tu.sd(x).get('q', ''))
+                if q not in ALGO_COMPACT and q not in ALGO_REORDER:
+                    continue
+                uses_seq = any(y.get('kind') == 'MemberExpr' and tu.sd(y).get('d') == sid for y in tu.walk(x))
+                if not uses_seq:
+                    continue
+                for lam in (y for y in tu.walk(x) if y.get('kind') == 'LambdaExpr'):
+                    ks = tu.kids(lam)
+                    recd = ks[0] if ks and ks[0].get('kind') == 'CXXRecordDecl' else None
+                    fields = [y for y in tu.kids(recd) if y.get('kind') == 'FieldDecl'] if recd else []
+                    inits = [y for y in ks[1:] if y.get('kind') not in ('CompoundStmt',)]
+                    for fd, init in zip(fields, inits):
+                        ini = tu.strip(init, casts=True)
+                        if ini is None or ini.get('kind') != 'DeclRefExpr' or ini.get('referencedDecl', {}).get('id') not in refs:
+                            continue
+                        byref = (fd.get('type') or {}).get('qualType', '').rstrip().endswith('&')
+                        nm = refs[ini['referencedDecl']['id']]
+                        if not byref:
+                            continue
+                        if trivial:
+                            ctx.ok(R6, inst, '`%s` reads `%s` by reference while it moves elements; %s is trivially copyable (a move leaves the source '
+                                   'intact) and keys are unique, so every comparison is still against a key different from all kept ones'
+                                   % (last(q), nm, ktname), tu.loc(x))
+                            continue
+                        ctx.violation(R6, inst, 'the predicate of `%s` reads the reference parameter `%s` while the algorithm is moving the elements. `%s` may '
+                                      'name a key stored in this very container (erase(m.begin()->first)): once that element has been moved out the '
+                                      'predicate compares against a moved-from %s (then against whichever element is moved into its place), so '
+                                      'entries other than the requested one can be removed'
+                                      % (last(q), nm, nm, ktname), tu.loc(x),
+                                      key='%s|%s|%s|predicate-reads-aliased-key' % (R6, file, pname),
+                                      path=[inst, '%s at %s moves elements while its predicate runs' % (last(q), tu.loc(x)),
+                                            'the predicate captures `%s` by reference' % nm])
+                        bad = True
+            if not bad:
+                ctx.ok(R6, inst, 'reference key parameter(s) %s not read after / while elements move' % sorted(refs.values()), tu.fn_loc(f))
+    return n
+
+
+# ============================================================================================
 def run(ctx):
     ctx.assume('KEY::operator== is an equivalence relation and std::string comparison is value comparison')
     ctx.assume('std::vector, std::find_if, std::stable_partition, std::make_shared behave as documented; Any::is<T>/get<T> as decided by C09')
@@ -1437,6 +1618,9 @@ def run(ctx):
         tag = '' if i == 0 else ' [gnu++17,wide]'
         a = check_flatmap(ctx, tu, tag)
         b = check_paramobj(ctx, tu, tag)
+        n6 = check_key_alias(ctx, tu, tag)
+        ctx.floor('R-C10-6', n6, 12, 'members taking the key by reference: at x2, operator[], contains, erase, lookup x2 per FlatMap instantiation; '
+                                      'hasParam, removeParam, findParam, setParam/getParam instantiations')
         ctx.floor('R-C10-3', a['n3'], 40, '23 members x 2 key/value instantiations analysed against their role')
         ctx.floor('R-C10-4', a['n4'], 12, 'sibling groups at, at_index, begin, end, rbegin, rend, lookup x 2 instantiations')
         ctx.floor('R-C10-1', a['counts']['insert'] + b['counts']['insert'], 3, 'insertion sites: FlatMap::operator[] x 2 instantiations + findParam')
